@@ -261,6 +261,63 @@ done:
     VD_END();
     return 1;
 }
+/* scale cases: string bodies made of one unit of the decoder's unit table repeated n times (n up to thousands: the output buffer is sized from
+ * the input length, so escapes over-reserve kilobytes), followed by 0..15 plain bytes; as a value and as a key; every entry point; the decoded bytes
+ * must be the concatenation of the unit decodings, the terminator must be where strlen expects it (the block is followed by a red zone of non-zero
+ * bytes), the tree prints and is released completely; with --failinject every allocator request of such a parse is refused in turn (C08) */
+static long scale_literals;
+static void scale_check(const unsigned char *text, size_t tl, const unsigned char *expect, size_t el, int askey, const char *what)
+{
+    int ep; long live0 = al_live;
+    for (ep = 0; ep < 3; ep++) {
+        cJSON *t; const char *end = NULL; const char *got;
+        if (!VD_TRY()) { al_in_call = 0; viol("*", "parsing %s: memory fault", what); return; }
+        al_in_call = 1; al_window(0);
+        t = ep == 0 ? cJSON_ParseWithLength((const char*)text, tl) : ep == 1 ? cJSON_Parse((const char*)text) : cJSON_ParseWithOpts((const char*)text, &end, vb_truthy(1, (unsigned long)tl));
+        al_in_call = 0; scale_literals++;
+        if (!t) viol("C02", "%s: a valid RFC 8259 text is rejected (entry point %d)", what, ep);
+        else {
+            cJSON *node = t->child; got = node ? (askey ? node->string : node->valuestring) : NULL;
+            if (!node || !got) viol("C02", "%s: no %s in the returned tree", what, askey ? "key" : "string");
+            else if (strlen(got) != el) viol("C02 C01", "%s: the decoded %s has %zu bytes, expected %zu (terminator missing or misplaced)", what, askey ? "key" : "string", strlen(got), el);
+            else if (memcmp(got, expect, el)) viol("C02", "%s: decoded bytes differ", what);
+            { char *p = cJSON_PrintUnformatted(t); if (!p) viol("C01", "%s: the returned tree cannot be printed", what); cJSON_free(p); }
+            cJSON_Delete(t);
+        }
+        if (al_live != live0) { viol("C01 C03", "%s: %ld block(s) remain allocated after parse and delete", what, al_live - live0); al_case_begin(); live0 = al_live; }
+        if (al_bad_free) { viol("C01", "%s: invalid release", what); al_bad_free = 0; }
+        if (!al_check_redzones()) { viol("*", "%s: the parser wrote beyond the end of a block it allocated", what); al_overflow = 0; }
+        VD_END();
+    }
+    if (do_failinject) failinject((const char*)text, tl, 0);
+}
+static void do_scale_parse(const jv *units, int full)
+{
+    static const int NS[] = { 7, 33, 170, 300, 700, 1100, 2056, 2072, 3000, 5000, 9000 }; size_t ui, ni; int tail, askey;
+    if (!units) return;
+    al_case_begin();
+    for (ui = 0; ui < units->n; ui++) {
+        const jv *ub = jv_at(units->e[ui], 0), *db = jv_at(units->e[ui], 1); size_t ul = ub->n, dl = db->n, k;
+        if (ul < 2 && !full) continue;          /* single raw bytes are covered by the byte table */
+        for (ni = 0; ni < sizeof(NS) / sizeof(NS[0]); ni++) {
+            int n = NS[ni]; if (!full && n > 3000) continue;
+            vd_tick();
+            for (tail = 0; tail < 16; tail += (full ? 1 : 8)) for (askey = 0; askey < 2; askey++) {
+                size_t tl = 0, el = 0, cap = ul * (size_t)n + 64; unsigned char *text = (unsigned char*)malloc(cap), *exp = (unsigned char*)malloc(dl * (size_t)n + 64); int i; char what[200];
+                text[tl++] = askey ? '{' : '['; text[tl++] = '"';
+                for (i = 0; i < n; i++) { for (k = 0; k < ul; k++) text[tl++] = (unsigned char)jv_int(ub->e[k]); for (k = 0; k < dl; k++) exp[el++] = (unsigned char)jv_int(db->e[k]); }
+                for (i = 0; i < tail; i++) { text[tl++] = (unsigned char)('a' + i); exp[el++] = (unsigned char)('a' + i); }
+                text[tl++] = '"'; if (askey) { text[tl++] = ':'; text[tl++] = '1'; text[tl++] = '}'; } else text[tl++] = ']';
+                text[tl] = 0;
+                snprintf(what, sizeof(what), "a %s of %d units (unit %zu of the table, %zu bytes each) and %d plain bytes", askey ? "key" : "string", n, ui + 1, ul, tail);
+                scale_check(text, tl, exp, el, askey, what);
+                free(text); free(exp);
+                if (VD.violations > 20) return;
+            }
+        }
+    }
+}
+
 /* numeric sweep (C02): seeded families of RFC 8259 number literals; every (literal, valuedouble, valueint) goes to the correctly rounding oracle */
 static uint64_t lcg_state = 0x243F6A8885A308D3ULL;
 static unsigned lcg(unsigned n) { lcg_state = lcg_state * 6364136223846793005ULL + 1442695040888963407ULL; return (unsigned)((lcg_state >> 33) % n); }
@@ -379,6 +436,38 @@ static void deep_cases(void)
 #endif
 }
 
+/* A release hook that itself parses (and fails on) a private text: allowed - the library has no state but the hooks and the error position.
+ * The outer, failing parse must still report ITS position: inside its own buffer, equal to cJSON_GetErrorPtr() (C10); the same ordering matters
+ * when another thread parses in between (C20). */
+static int reent_armed, reent_depth; static long reent_inner;
+static void reent_free(void *p)
+{
+    if (reent_armed && !reent_depth && p) { cJSON *x; reent_depth = 1; x = cJSON_Parse("[\"inner\", tru"); if (x) cJSON_Delete(x); reent_inner++; reent_depth = 0; }
+    al_free(p);
+}
+static void reentrancy_cases(void)
+{
+    static const char *T[] = { "[1,2,{\"a\":[3,4]}] x", "{\"k\":[1,2,3],\"l\":\"text\"} ]", "[1,2,", "[\"ab\",{\"c\":nul}]", "[[1,2],[3,4]] 5" }; size_t i; cJSON_Hooks h, back;
+    h.malloc_fn = al_malloc; h.free_fn = reent_free; back.malloc_fn = al_malloc; back.free_fn = al_free;
+    for (i = 0; i < sizeof(T) / sizeof(T[0]); i++) {
+        int rnt; for (rnt = 0; rnt < 2; rnt++) {
+            const char *end = (const char*)(uintptr_t)1, *g; cJSON *t; size_t L = strlen(T[i]);
+            al_case_begin(); cJSON_InitHooks(&h); VD.cases++;
+            if (!VD_TRY()) { reent_armed = 0; cJSON_InitHooks(&back); viol("*", "parse with a release hook that parses: memory fault"); continue; }
+            reent_armed = 1; t = cJSON_ParseWithLengthOpts(T[i], L + 1, &end, vb_truthy(rnt, i)); reent_armed = 0;
+            g = cJSON_GetErrorPtr();
+            if (!t) {
+                if (end < T[i] || end > T[i] + L) viol("C10 C20", "a failing parse whose release hook parses another text reports an error position outside its own buffer");
+                else if (g != end) viol("C10", "a failing parse whose release hook parses another text: reported position and cJSON_GetErrorPtr() differ");
+            }
+            cJSON_Delete(t);
+            VD_END();
+            cJSON_InitHooks(&back);
+            if (al_live != 0) viol("C01 C03", "%ld block(s) remain allocated after a parse with a re-entrant release hook", al_live);
+        }
+    }
+}
+
 int vd_parse_main(int argc, char **argv);
 int vd_parse_main(int argc, char **argv)
 {
@@ -397,14 +486,17 @@ int vd_parse_main(int argc, char **argv)
     region_init();
     vd_install_handlers();
     deep_cases();
+    if (!default_hooks) reentrancy_cases();
+    if (default_hooks) cJSON_InitHooks(NULL); else cJSON_InitHooks(&hooks);
     while ((len = getline(&line, &cap, stdin)) > 0 || (len < 0 && errno == EINTR && !feof(stdin) && (clearerr(stdin), 1))) {
         char *copy; jv *v; int rc;
         if (len <= 0) continue;
         if (line[0] != '"') { if (VD.passthrough) fputs(line, VD.passthrough); continue; }
         copy = strdup(line); jv_reset(); v = jv_parse_line(line);
-        if (v && v->t == JV_ARR && v->n == 3 && jv_is_str(jv_at(v, 0), "Y")) {
+        if (v && v->t == JV_ARR && v->n >= 3 && jv_is_str(jv_at(v, 0), "Y")) {
             VD.curline = copy; VD.cases++;
             if (do_strtable(v, full_table) < 0) { fprintf(stderr, "vdrv: cannot interpret string table\n"); return 2; }
+            if (v->n >= 4) do_scale_parse(jv_at(v, 3), full_table);
             if (sweep_count) do_numsweep(sweep_count);
             VD.nontrivial++; VD.curline = NULL; free(copy); continue; }
         if (!v || v->t != JV_ARR || v->n < 6 || !jv_is_str(jv_at(v, 0), "P")) { if (VD.passthrough) fputs(copy, VD.passthrough); free(copy); continue; }
@@ -416,8 +508,8 @@ int vd_parse_main(int argc, char **argv)
         vd_tick(); VD.curline = NULL; free(copy);
     }
     if (numout) numobs_dump(numout);
-    snprintf(extra, sizeof(extra), "\"variants_must_accept\": %ld, \"variants_must_reject\": %ld, \"variants_open\": %ld, \"entry_point_calls\": %ld, \"accepted\": %ld, \"rejected\": %ld, \"other_property_violations\": %ld, \"distinct_number_observations\": %zu, \"failinject_runs\": %ld, \"short_string_literals_against_table\": %ld, \"number_literals_swept\": %ld",
-             cls_count[0], cls_count[1], cls_count[2], ep_calls, accepted, rejected, VD.by_kind[0], nobs_n, failinj_runs, table_literals, sweep_numbers);
+    snprintf(extra, sizeof(extra), "\"variants_must_accept\": %ld, \"variants_must_reject\": %ld, \"variants_open\": %ld, \"entry_point_calls\": %ld, \"accepted\": %ld, \"rejected\": %ld, \"other_property_violations\": %ld, \"distinct_number_observations\": %zu, \"failinject_runs\": %ld, \"short_string_literals_against_table\": %ld, \"number_literals_swept\": %ld, \"scale_string_parses\": %ld",
+             cls_count[0], cls_count[1], cls_count[2], ep_calls, accepted, rejected, VD.by_kind[0], nobs_n, failinj_runs, table_literals, sweep_numbers, scale_literals);
     if (stats) vd_write_stats(stats, extra);
     return VD.violations ? 1 : 0;
 }
